@@ -247,8 +247,10 @@ def jsonRelevantKind (kind : String) : Bool :=
   kind == "same" || kind == "param" || kind.startsWith "typaram"
 
 /-- Site `cfg-pair*`: input `(cfg pair KIND A B)`, output
-`(pair (a ok) (b ok) (ron-eq _) (tree-eq _) (json-eq _) (clone-eq _) (ta TREE) (tb TREE))` where
-`TREE` is the name-preserving traversal of the real component tree. -/
+`(pair (a ok) (b ok) (ron-eq _) (tree-eq _) (json-eq _) (clone-eq _) (ta TREE) (tb TREE) (ra TREE) (rb TREE))`
+where `ta`/`tb` are the name-preserving traversal of the real component tree and `ra`/`rb` the RON text
+that `Configuration::to_ron` left behind (at a path that held junk / the export of `a` before), read
+back as a whole by the harness's RON reader into the same generic form. -/
 def handlePair (input implOut : Sexp) : Option CaseResult := do
   match input with
   | .list [.atom "cfg", .atom "pair", .atom kind, a, b] =>
@@ -260,18 +262,22 @@ def handlePair (input implOut : Sexp) : Option CaseResult := do
       let jr := jsonRelevantKind kind
       let mv := pairModel jr ta tb
       let model := Sexp.list (.atom "pair" :: (verdictSexp mv ++
-        [.list [.atom "ta", shownTree ta], .list [.atom "tb", shownTree tb]]))
+        [.list [.atom "ta", shownTree ta], .list [.atom "tb", shownTree tb],
+         .list [.atom "ra", shownTree ta], .list [.atom "rb", shownTree tb]]))
       match implOut with
       | .list (.atom "pair" :: rest) =>
         (match rest.take 6, rest.drop 6 with
-         | vs, [.list [.atom "ta", xa], .list [.atom "tb", xb]] =>
+         | vs, [.list [.atom "ta", xa], .list [.atom "tb", xb], .list [.atom "ra", ya], .list [.atom "rb", yb]] =>
            (match parseVerdict vs with
             | some v =>
               let namesOk := Sexp.beq (readback xa) (shownTree ta) && Sexp.beq (readback xb) (shownTree tb)
-              let holds := pairHolds ta tb v && namesOk
+              -- the text `Configuration::to_ron` left at a path that held something else before, read back as a whole
+              let ronOk := Sexp.beq (readback ya) (shownTree ta) && Sexp.beq (readback yb) (shownTree tb)
+              let holds := pairHolds ta tb v && namesOk && ronOk
               let same := sameConfig ta tb
               let cls := if holds then "-"
                 else if !(v.aOk && v.bOk) then "ser-err"
+                else if namesOk && !ronOk then "ron-readback"
                 else if !v.cloneEq then "clone-differs"
                 else if !same && (v.ronEq || v.treeEq || v.jsonEq == some true) then "collision"
                 else if same && !(v.ronEq && v.treeEq && v.jsonEq != some false) then "spurious-difference"
@@ -289,6 +295,8 @@ def canonPair : Sexp → Sexp
     .list (.atom "pair" :: rest.map fun x => match x with
       | .list [.atom "ta", t] => .list [.atom "ta", readback t]
       | .list [.atom "tb", t] => .list [.atom "tb", readback t]
+      | .list [.atom "ra", t] => .list [.atom "ra", readback t]
+      | .list [.atom "rb", t] => .list [.atom "rb", readback t]
       | y => y)
   | other => other
 
